@@ -52,6 +52,21 @@ Theorem C13_entry_matches : forall q r e,
 Proof. exact entry_matches_spec. Qed.
 Print Assumptions C13_entry_matches.
 
+(* the two readings of tag sets the model uses are Go's: Summary.Tags() never panics and is [summary_tags] (C14); a
+   set built by Put / Merge contains a queried tag iff one of the tags found carries it *)
+Theorem C13_summary_tags_total : forall lines, go_summary_tags_o lines = Ok (summary_tags go_is_letter go_to_lower lines).
+Proof. exact summary_tags_total. Qed.
+Print Assumptions C13_summary_tags_total.
+
+Theorem C13_subset_is_carries : forall qs r e,
+  is_subset_of qs (summary_tags go_is_letter go_to_lower (rec_summary r))
+    = carries_all (found_tags go_is_letter go_to_lower (rec_summary r)) qs /\
+  is_subset_of qs (ts_merge go_to_lower [summary_tags go_is_letter go_to_lower (rec_summary r);
+                                         summary_tags go_is_letter go_to_lower (e_summary e)])
+    = carries_all (found_tags go_is_letter go_to_lower (rec_summary r) ++ found_tags go_is_letter go_to_lower (e_summary e)) qs.
+Proof. exact (fun qs r e => conj (subset_record qs (rec_summary r)) (subset_entry qs r e)). Qed.
+Print Assumptions C13_subset_is_carries.
+
 (* the date clauses, on calendar dates, are comparisons of day numbers *)
 Theorem C13_date_le_days : forall a b, valid a -> valid b -> (date_le a b <-> days_of a <= days_of b).
 Proof. exact date_le_days. Qed.
